@@ -18,7 +18,9 @@ class CNum (α : Type) extends TA.Num α where
   lt : α → α → Bool
   beq : α → α → Bool
 
-inductive Predictor | linear | constant
+/-- the gonum predictors in use, and (harness only) one that does not pass through its data points:
+    `shifted` predicts the first fitted value plus one, everywhere -/
+inductive Predictor | linear | constant | shifted
   deriving DecidableEq, Repr
 
 structure Opts where
@@ -130,6 +132,7 @@ def findSegment (xs : List α) (x : α) : Option Nat :=
 
 /-- gonum `PiecewiseLinear` / `PiecewiseConstant` fitted on (xs, ys), evaluated at x -/
 def predict (k : Predictor) (xs ys : List α) (x : α) : Outcome α :=
+  if k = .shifted then (idx? ys 0).map fun y0 => Num.add y0 (CNum.ofInt 1) else
   match findSegment xs x with
   | none => idx? ys 0
   | some i => do
@@ -143,6 +146,7 @@ def predict (k : Predictor) (xs ys : List α) (x : α) : Outcome α :=
       match k with
       | .constant => .ok yj
       | .linear => .ok (Num.add yi (Num.mul (Num.div (Num.sub yj yi) (Num.sub xj xi)) (Num.sub x xi)))
+      | .shifted => .ok (Num.add yi (CNum.ofInt 1))
 
 /-- gonum `Fit` panics unless xs is strictly increasing -/
 def strictlyIncreasing : List α → Bool
@@ -232,7 +236,7 @@ def predictOBD (k : Predictor) (s : Session α) : Outcome (Session α) := do
   match sc.start with
   | none => .unmodelled
   | some start =>
-    if !strictlyIncreasing sc.xs then .panic .explicit else
+    if k ≠ .shifted ∧ !strictlyIncreasing sc.xs then .panic .explicit else     -- (gonum's Fit panics; the harness predictor accepts any series)
     match channelSeries sc.rows with
     | none => .unmodelled
     | some chans => (predictLaps k start sc.xs chans s.laps false).map fun laps => { s with laps := laps }
